@@ -177,17 +177,24 @@ Lemma matcher_misses_with_cr_in_key :
   mrun (make_boundary bad_key) 0 (bad_content ++ make_boundary bad_key) [] = None.
 Proof. split; vm_compute; reflexivity. Qed.
 
-(* ---------- the header terminator matcher (reset to 0 on mismatch, no restart) ---------- *)
+(* ---------- the header terminator matcher (on a mismatch: restart at 1 if the byte is CR, else at 0) ---------- *)
 (* position after reading w, None once CR LF CR LF has been recognised *)
 Fixpoint hterm (p : nat) (w : list N) : option nat :=
   match w with
   | [] => Some p
-  | c :: r => let p' := if c =? nth p crlfcrlf 0 then S p else O in
+  | c :: r => let p' := if c =? nth p crlfcrlf 0 then S p else if c =? 13 then 1%nat else O in
               if Nat.eqb p' 4 then None else hterm p' r
   end.
-(* CR CR LF CR LF contains the terminator but the matcher does not see it *)
-Lemma header_terminator_missed_after_cr : hterm 0 [13;13;10;13;10] = Some 2%nat.
-Proof. reflexivity. Qed.
+(* the matcher as it was before repair 3fc4520 (reset to 0, no restart), kept for the regression examples *)
+Fixpoint hterm_old (p : nat) (w : list N) : option nat :=
+  match w with
+  | [] => Some p
+  | c :: r => let p' := if c =? nth p crlfcrlf 0 then S p else O in
+              if Nat.eqb p' 4 then None else hterm_old p' r
+  end.
+(* CR CR LF CR LF: missed by the old matcher, recognised now *)
+Lemma header_terminator_after_cr : hterm 0 [13;13;10;13;10] = None /\ hterm_old 0 [13;13;10;13;10] = Some 2%nat.
+Proof. split; reflexivity. Qed.
 
 (* ---------- the matcher inside the state machine ---------- *)
 Definition file_with_data (f : pfile) (rdata : list N) : pfile := mkfile (f_name f) (f_filename f) (f_mime f) rdata.
